@@ -2491,6 +2491,26 @@ func (r *Run) applyFunc(f *VFunc, vals []Val, pos token.Pos) (Val, bool) {
 // foldSlices interprets the search helpers of package slices as the loops they abbreviate, so that a
 // generator written with slices.ContainsFunc explores exactly like one written with a range loop.
 func (r *Run) foldSlices(name string, call *ast.CallExpr, env *Env, rt types.Type) (Val, bool) {
+	if name == "Concat" && len(call.Args) >= 1 && (r.W.ConcatLists || r.W.Concrete) {
+		// slices.Concat(a, b, …) = append(append([]T(nil), a...), b...): the elements of each list are decided now
+		var elemT types.Type
+		if rt != nil {
+			if st, ok := rt.Underlying().(*types.Slice); ok {
+				elemT = st.Elem()
+			}
+		}
+		out := VList{Key: "concat", Elems: []Val{}}
+		for _, a := range call.Args {
+			v := r.eval(a, env)
+			switch v.(type) {
+			case VList, VSym, VNil:
+				out.Elems = append(out.Elems, r.listElems(v, call.Pos(), elemT)...)
+			default:
+				return nil, false
+			}
+		}
+		return out, true
+	}
 	if (name == "Sorted" || name == "Collect" || name == "Clone") && len(call.Args) == 1 {
 		if l, ok := r.eval(call.Args[0], env).(VList); ok && l.Elems != nil {
 			out := VList{Key: l.Key, Elems: append([]Val{}, l.Elems...)}
